@@ -840,3 +840,18 @@ func mustRaw(p crypto.PrivKey) []byte {
 	}
 	return b
 }
+
+// TestEveryPoolKey: every committed RSA key (sizes 2048..8192, public exponents 3, 5, 17, 257 and 65537, the prefix
+// twin) and the first 40 keys of every other algorithm, each paired with itself and with its neighbour.
+func TestEveryPoolKey(t *testing.T) {
+	for _, a := range keys.AllAlgs {
+		n := 40
+		if a == keys.RSA {
+			n = keys.RSAPoolSize()
+		}
+		for i := 0; i < n; i++ {
+			keyProp.One(t, KeyCase{Alg: a, Idx: i, Alg2: a, Idx2: i})
+			keyProp.One(t, KeyCase{Alg: a, Idx: i, Alg2: a, Idx2: (i + 1) % n})
+		}
+	}
+}
